@@ -96,7 +96,9 @@ def r1(ctx):
         for i, (k, e) in enumerate(zip(keys, tup.elts)):
             fld, how = _field_of(e)
             want = {"attributes": "json", "extra": "json", "bin": "calc"}.get(k, "plain")
-            ok = fld == k and (how == want or (k == "bin" and how in ("calc",)))
+            # the bin column is only required to be the feature's bin here; that it is *recomputed* (not the cached
+            # attribute) is C06.R3 / C12.R5's obligation, not a fidelity clause
+            ok = fld == k and (how == want or (k == "bin" and how in ("calc", "plain")))
             ctx.ob("R1", ok, "astuple element %d projects the `%s` field (%s)" % (i, k, want), node=e, func=at,
                    sig="astuple[%d] (%s) = %s" % (i, k, norm(_strip_decode(e)) if not ok else "%s/%s" % (k, want)), nontrivial=(i < 12))
     # ---- Feature.__init__ accepts every selected column (rows are splatted)
@@ -389,3 +391,14 @@ def check(ctx):
     r3(ctx)
     r4(ctx)
     r5(ctx)
+    # printing with the file's dialect: shape clauses shared with C07 (printer template over all dialect configurations,
+    # no mutation of the shared dialect while printing, splitter/joiner literals, decode layer)
+    from . import c07
+    n0 = len(ctx.obs)
+    rc = require_func(ctx, "parser._reconstruct")
+    c07.no_dialect_mutation(ctx, rc, "R6")
+    c07.r_printer(ctx, rule="R6")
+    c07.r2_r3(ctx)
+    c07.r_decode_layer(ctx, rule="R6")
+    for o in ctx.obs[n0:]:
+        o.rule = "C01.R6"
